@@ -26,7 +26,8 @@ EXTRA = {
     "C01": [("gapic/schema/api.py", "API.subpackages"), ("gapic/utils/code.py", "empty"), ("gapic/schema/wrappers.py", "Service.module_name"),
             ("gapic/schema/wrappers.py", "Method.paged_result_field"), ("gapic/schema/wrappers.py", "Method.client_output"),
             ("gapic/schema/wrappers.py", "Method.flat_ref_types"), ("gapic/generator/generator.py", "Generator._get_filename"),
-            ("gapic/schema/api.py", "Proto.python_modules"), ("gapic/samplegen/samplegen.py", "_get_sample_imports")],
+            ("gapic/schema/api.py", "Proto.python_modules"), ("gapic/samplegen/samplegen.py", "_get_sample_imports"),
+            ("gapic/schema/api.py", "Proto.names")],
     "C12": [("gapic/schema/wrappers.py", "Service.with_context"), ("gapic/schema/wrappers.py", "Method.with_context"),
             ("gapic/schema/wrappers.py", "Method.flattened_fields"), ("gapic/schema/wrappers.py", "Service.names"),
             ("gapic/schema/wrappers.py", "Method.ref_types"), ("gapic/schema/wrappers.py", "Method._client_output"),
